@@ -91,15 +91,19 @@ theorem slip10ChildKey_ok {nd idx c} (h : slip10ChildKey nd idx = .ok c) : IsChi
     · rename_i priv hp
       split at h
       · cases h
-      · obtain ⟨h1, h2, h3, h4, h5, _, h7⟩ := nodeOfPriv_ok h
-        exact ⟨h1, h2, h3, h4, h7, by simp [h5, hp], hlt⟩
+      · split at h
+        · cases h
+        · obtain ⟨h1, h2, h3, h4, h5, _, h7⟩ := nodeOfPriv_ok h
+          exact ⟨h1, h2, h3, h4, h7, by simp [h5, hp], hlt⟩
     · rename_i hp
       split at h
       · cases h
       · split at h
         · cases h
-        · obtain ⟨h1, h2, h3, h4, h5, _, h7⟩ := nodeOfPub_ok h
-          exact ⟨h1, h2, h3, h4, h7, by simp [h5, hp], hlt⟩
+        · split at h
+          · cases h
+          · obtain ⟨h1, h2, h3, h4, h5, _, h7⟩ := nodeOfPub_ok h
+            exact ⟨h1, h2, h3, h4, h7, by simp [h5, hp], hlt⟩
 
 theorem kholawChildKey_ok {nd idx c} (h : kholawChildKey nd idx = .ok c) : IsChildOf nd idx c := by
   unfold kholawChildKey at h
@@ -112,15 +116,19 @@ theorem kholawChildKey_ok {nd idx c} (h : kholawChildKey nd idx = .ok c) : IsChi
     · rename_i priv hp
       split at h
       · cases h
-      · obtain ⟨h1, h2, h3, h4, h5, _, h7⟩ := nodeOfPriv_ok h
-        exact ⟨h1, h2, h3, h4, h7, by simp [h5, hp], hlt⟩
+      · split at h
+        · cases h
+        · obtain ⟨h1, h2, h3, h4, h5, _, h7⟩ := nodeOfPriv_ok h
+          exact ⟨h1, h2, h3, h4, h7, by simp [h5, hp], hlt⟩
     · rename_i hp
       split at h
       · cases h
       · split at h
         · cases h
-        · obtain ⟨h1, h2, h3, h4, h5, _, h7⟩ := nodeOfPub_ok h
-          exact ⟨h1, h2, h3, h4, h7, by simp [h5, hp], hlt⟩
+        · split at h
+          · cases h
+          · obtain ⟨h1, h2, h3, h4, h5, _, h7⟩ := nodeOfPub_ok h
+            exact ⟨h1, h2, h3, h4, h7, by simp [h5, hp], hlt⟩
 
 theorem childKey_ok {nd idx c} (h : childKey nd idx = .ok c) : IsChildOf nd idx c := by
   unfold childKey at h
